@@ -19,8 +19,9 @@ RULE = (
     '(all but seed); non-trivial iff covariance has non-zero off-diagonal (or kind is index selecting < all)'
     '; pass 5: sums of one object with itself; exact jitter amounts (tiny, zero, negative); exact log_prob path and scale_tril above max_cholesky_size'
     '; pass 6: KL divergence with the event size exactly at max_cholesky_size and Lanczos rank 2; index tensors must not be mutated'
+    '; pass 7: sums of two root-represented MVNs; successive draws; the point-mass distribution of the anchor file (Delta: shapes, log_prob, samples, expand leaves the source alone, KL against an MVN = -log density)'
 )
-REQUIRED = ["log_prob", "kl", "kl_identical_zero", "rsample_LLt", "index_mean", "index_covariance", "variance", "mul_scalar", "add_mvn"]
+REQUIRED = ["log_prob", "kl", "kl_identical_zero", "rsample_LLt", "index_mean", "index_covariance", "variance", "mul_scalar", "add_mvn", "delta_distribution"]
 ASSUMPTIONS = ["random SPD covariances with condition number < 1e3; event sizes <= 6; stochastic fast-path pieces (SLQ) are not reached at these sizes (Cholesky below max_cholesky_size)"]
 ANCHOR_FILES = ["gpytorch/distributions/multivariate_normal.py", "gpytorch/distributions/delta.py"]
 
@@ -39,6 +40,9 @@ def cases(tier, seed):
             if tier == "quick" and rnd.random() < 0.0:
                 continue
             yield {"kind": "logprob", "N": N, "dbatch": db, "vbatch": vb, "rep": rep, "fast": fast, "mean_less": rnd.random() < 0.3, "seed": rnd.randrange(10**6)}
+        # the point-mass member of the family (gpytorch.distributions.Delta): expand / log_prob / rsample / KL against an MVN
+        for N, db, eb, ev in itertools.product([1, 3], [[], [2], [3, 1]], [[2], [4, 3, 2], [3, 2]], [0, 1]):
+            yield {"kind": "delta", "N": N, "dbatch": db, "expand": eb, "event_dim": ev, "seed": rnd.randrange(10**6)}
         for N, b1, b2, r1, r2 in itertools.product([1, 3], DBATCH, DBATCH, ["dense", "linop", "root", "wideroot", "diag"], ["dense", "kron", "addeddiag", "wideroot", "diag"]):
             if tier == "quick" and rnd.random() < 0.0:
                 continue
@@ -141,7 +145,52 @@ def run_case(case, ctx):
     from vf import util
 
     g = util.gen(case["seed"])
-    return {"logprob": _logprob, "kl": _kl, "sample": _sample, "arith": _arith, "index": _index, "moments": _moments}[case["kind"]](case, ctx, g)
+    return {"logprob": _logprob, "kl": _kl, "sample": _sample, "arith": _arith, "index": _index, "moments": _moments, "delta": _delta}[case["kind"]](case, ctx, g)
+
+
+def _delta(case, ctx, g):
+    """Delta(v): the distribution of the constant v. expand broadcasts v (and the log density) and leaves the source as it was;
+    log_prob is the log density at v and -inf elsewhere; samples are v; KL(Delta(v) || N(m, C)) = -log N(v | m, C)"""
+    import torch
+
+    from gpytorch.distributions import Delta
+    from gpytorch.distributions import MultivariateNormal as MVN
+    from vf import util
+
+    N, db, eb, ev = case["N"], case["dbatch"], case["expand"], case["event_dim"]
+    v = util.randn(g, *db, N)
+    ld = util.randn(g, *(v.shape[: v.dim() - ev])) if case["seed"] % 2 else 0.0
+    d = Delta(v.clone(), log_density=ld.clone() if torch.is_tensor(ld) else ld, event_dim=ev)
+    bs0, es0 = tuple(d.batch_shape), tuple(d.event_shape)
+    ctx.expect("delta_distribution", bs0 == tuple(v.shape[: v.dim() - ev]) and es0 == tuple(v.shape[v.dim() - ev:]), f"batch/event shapes {bs0}/{es0} for v of shape {tuple(v.shape)}, event_dim={ev}")
+    ldt = ld if torch.is_tensor(ld) else torch.zeros(bs0)
+    ctx.close("delta_distribution", d.log_prob(v), ldt, "bit", cls="log_prob_at_v")
+    off = d.log_prob(v + 1.0)
+    ctx.expect("delta_distribution", bool((off == float("-inf")).all()), "log_prob away from the support is not -inf")
+    ctx.close("delta_distribution", d.rsample(torch.Size([2])), v.expand(2, *v.shape), "bit", cls="rsample")
+    ctx.close("delta_distribution", d.mean, v, "bit", cls="mean")
+    ctx.expect("delta_distribution", bool((d.variance == 0).all()), "variance of a point mass is not 0")
+    try:
+        tgt = torch.broadcast_shapes(torch.Size(eb), torch.Size(bs0))
+    except RuntimeError:
+        tgt = None
+    if tgt is not None and len(tgt) >= len(bs0):
+        try:
+            e = d.expand(tgt)
+            ctx.expect("delta_distribution", tuple(e.batch_shape) == tuple(tgt) and tuple(e.event_shape) == es0, f"expand({tuple(tgt)}): batch/event shapes {tuple(e.batch_shape)}/{tuple(e.event_shape)}")
+            ve = v.expand(*tgt, *es0)
+            ctx.close("delta_distribution", e.mean, ve, "bit", cls="expand:mean")
+            ctx.close("delta_distribution", e.log_prob(ve), ldt.expand(tgt), "bit", cls="expand:log_prob")
+        except Exception as ex:
+            ctx.fail("delta_distribution", f"expand({tuple(tgt)}) / use of the expanded distribution raised {type(ex).__name__}: {str(ex)[:120]}", "raise", op="expand")
+        ctx.expect("delta_distribution", tuple(d.batch_shape) == bs0 and tuple(d.event_shape) == es0 and bool(torch.equal(d.v, v)), f"expand changed the SOURCE distribution: batch shape {bs0} -> {tuple(d.batch_shape)}", op="expand_source")
+    if ev == 1:
+        a = util.randn(g, *db, N, N)
+        C = a @ a.transpose(-1, -2) / N + 0.5 * torch.eye(N)
+        q = MVN(util.randn(g, *db, N), C)
+        kl = torch.distributions.kl_divergence(d, q)
+        ctx.close("delta_distribution", kl, -util.mvn_logpdf(v, q.mean, C), "direct", cls="kl_delta_mvn")
+    ctx.cell(_cellkey(case), nontrivial=True)
 
 
 def _cellkey(case):
